@@ -69,7 +69,8 @@ Definition is_opt (s : shape) : bool := match s with SOpt => true | _ => false e
 Definition kind_of (M : cmodel) (f : field) : kind :=
   match f_ep f, is_coll (f_shape f) with
   | EB b, false => KColumn (bcode b) "" (is_opt (f_shape f))
-  | EEnum _ n, false => KColumn 6 n (is_opt (f_shape f))
+  | EEnum m n, false => if String.eqb m "builtins" || String.eqb m "datetime" then KNone   (* no user enum lives there *)
+                        else KColumn 6 n (is_opt (f_shape f))
   | EB b, true => if json_elem b then KColumn 7 "" false else KNone
   | EEnum _ _, true => KNone
   | ECls t, false => if is_mapped M t then KRef t else KNone
